@@ -120,6 +120,8 @@ func main() {
 		runHist(o, rng, thorough, *replay, "")
 	case "svc":
 		runHist(o, rng, thorough, *replay, "svc")
+	case "order":
+		runHist(o, rng, thorough, *replay, "order")
 	case "restart":
 		runHist(o, rng, thorough, *replay, "restart")
 	case "drain":
